@@ -1,7 +1,7 @@
 (* Layer I, group R (bid128_round_integral_{zero, negative, positive, nearest_even, nearest_away, exact}, bid128_nearbyint):
    shared lemmas (logical path DVI).
    - __mul_128x128_to_256 (generated code) is exact;
-   - rows of BID_TEN2MK128 / BID_SHIFTRIGHT128 / BID_MASKHIGH128 / BID_ONEHALF128 / BID_MIDPOINT64 / BID_MIDPOINT128 against
+   - rows of BID_TEN2MK128 / BID_SHIFTRIGHT128 / BID_MASKHIGH128 / BID_MIDPOINT64 / BID_MIDPOINT128 against
      closed forms by kernel computation (34 + 19 + 15 rows);
    - rq_core: from the four words of C' * K_k the shifted high words are C' / 10^k, and the discarded bits `rho` decide
      C' mod 10^k = 0 (rho < K_k) and C' mod 10^k = 10^k / 2 (2^(127+s) <= rho < 2^(127+s) + K_k) (through ImplRecip.recip_core);
@@ -67,17 +67,15 @@ Qed.
 Definition rk (k:Z) : Z := nth (Z.to_nat (k - 1)) T_BID_TEN2MK128_w1 0 * 18446744073709551616 + nth (Z.to_nat (k - 1)) T_BID_TEN2MK128_w0 0.
 Definition rs (k:Z) : Z := nth (Z.to_nat (k - 1)) T_BID_SHIFTRIGHT128 0.
 Definition rm (k:Z) : Z := nth (Z.to_nat (k - 1)) T_BID_MASKHIGH128 0.
-Definition rh (k:Z) : Z := nth (Z.to_nat (k - 1)) T_BID_ONEHALF128 0.
 
 (* row k (1..34): words in range; the shift is 0 exactly for k <= 3 and below 64 exactly for k <= 22; the mask is
-   2^(s mod 64) - 1; the half is 2^(s mod 64 - 1) for k >= 4 (0 for k <= 3); e = K * 10^k - 2^(128+s) is positive and small
-   enough for every C' <= 2*10^34 *)
+   2^(s mod 64) - 1; e = K * 10^k - 2^(128+s) is positive and small enough for every C' <= 2*10^34 *)
 Definition rint_row_ok (k:Z) : bool :=
   let K := rk k in let s := rs k in let D := 10 ^ k in let e := K * D - 2 ^ (128 + s) in
   (0 <=? nth (Z.to_nat (k - 1)) T_BID_TEN2MK128_w0 0) && (nth (Z.to_nat (k - 1)) T_BID_TEN2MK128_w0 0 <? 18446744073709551616) &&
   (0 <=? nth (Z.to_nat (k - 1)) T_BID_TEN2MK128_w1 0) && (nth (Z.to_nat (k - 1)) T_BID_TEN2MK128_w1 0 <? 18446744073709551616) &&
   (0 <=? s) && (s <? 128) && Bool.eqb (s <? 64) (k <=? 22) && Bool.eqb (s =? 0) (k <=? 3) &&
-  (rm k =? 2 ^ (s mod 64) - 1) && (if k <=? 3 then rh k =? 0 else 2 * rh k =? 2 ^ (s mod 64)) &&
+  (rm k =? 2 ^ (s mod 64) - 1) &&
   (1 <=? e) && ((20000000000000000000000000000000000 / D + 3) * e <? K).
 Lemma rint_rows_ok : forallb rint_row_ok (map Z.of_nat (seq 1 34)) = true.
 Proof. vm_compute. reflexivity. Qed.
@@ -93,15 +91,13 @@ Lemma rint_row k : 1 <= k <= 34 ->
   let K := rk k in let s := rs k in let e := K * 10 ^ k - 2 ^ (128 + s) in
   in_u64 (nth (Z.to_nat (k - 1)) T_BID_TEN2MK128_w0 0) /\ in_u64 (nth (Z.to_nat (k - 1)) T_BID_TEN2MK128_w1 0) /\
   0 <= s < 128 /\ ((s <? 64) = (k <=? 22)) /\ ((s =? 0) = (k <=? 3)) /\ rm k = 2 ^ (s mod 64) - 1 /\
-  (if k <=? 3 then rh k = 0 else 2 * rh k = 2 ^ (s mod 64)) /\
   1 <= e /\ (20000000000000000000000000000000000 / 10 ^ k + 3) * e < K.
 Proof.
   intros Hk. pose proof rint_rows_ok as A. rewrite forallb_forall in A.
   specialize (A k (in_seq1 k 34 ltac:(change (Z.of_nat 34) with 34; lia))). unfold rint_row_ok in A. cbv zeta in A.
-  rewrite !andb_true_iff in A. destruct A as [[[[[[[[[[[A1 A2] A3] A4] A5] A6] A7] A8] A9] A10] A11] A12].
+  rewrite !andb_true_iff in A. destruct A as [[[[[[[[[[A1 A2] A3] A4] A5] A6] A7] A8] A9] A11] A12].
   apply Z.leb_le in A1, A3, A5, A11. apply Z.ltb_lt in A2, A4, A6, A12. apply Z.eqb_eq in A9.
   apply Bool.eqb_prop in A7, A8. cbv zeta. unfold in_u64. repeat split; try lia; try assumption.
-  destruct (k <=? 3); apply Z.eqb_eq in A10; exact A10.
 Qed.
 
 (* midpoints 5 * 10^i: BID_MIDPOINT64 (i = 0..18), BID_MIDPOINT128 (i = 19..33) *)
@@ -150,7 +146,7 @@ Lemma rq_core k C' p0 p1 p2 p3 : 1 <= k <= 34 -> 0 <= C' <= 20000000000000000000
   (rho < rk k <-> r = 0) /\ (2 ^ (127 + s) <= rho < 2 ^ (127 + s) + rk k <-> 2 * r = D) /\ (rho < 2 ^ (127 + s) <-> 2 * r < D).
 Proof.
   intros Hk HC H0 H1 H2 H3 HP D s r lo a rho. unfold in_u64 in *.
-  destruct (rint_row k Hk) as (RK0 & RK1 & RS & RB & RZ & RM & RH & RE1 & RE2). cbv zeta in *. fold s D in RS, RB, RZ, RM, RE1, RE2.
+  destruct (rint_row k Hk) as (RK0 & RK1 & RS & RB & RZ & RM & RE1 & RE2). cbv zeta in *. fold s D in RS, RB, RZ, RM, RE1, RE2.
   assert (RK : 0 <= rk k < 340282366920938463463374607431768211456) by (unfold rk, in_u64 in *; lia).
   assert (HD : 0 < D) by (apply Z.pow_pos_nonneg; lia).
   assert (HPS : 0 < 2 ^ (128 + s)) by (apply Z.pow_pos_nonneg; lia).
@@ -732,7 +728,7 @@ Ltac rint_zero_leaf x1 CND :=
 (* the reciprocal multiplication: product words p0..p3 of C' * K_k with the facts of rq_core *)
 Ltac mul_stage x0 hi C k HC Hk H0 :=
   assert (Hk34 : 1 <= k <= 34) by lia;
-  destruct (rint_row k Hk34) as (RK0 & RK1 & RS & RB & RZ & RM & RH & RE1 & RE2); cbv zeta in RS, RB, RZ, RM;
+  destruct (rint_row k Hk34) as (RK0 & RK1 & RS & RB & RZ & RM & RE1 & RE2); cbv zeta in RS, RB, RZ, RM;
   pose proof (R_mul_128x128_to_256 x0 hi _ _ H0 ltac:(unfold in_u64; lia) RK0 RK1) as MUL;
   destruct (i___mul_128x128_to_256 _ _ _ _) as [[[p0 p1] p2] p3]; destruct MUL as (P0 & P1 & P2 & P3 & MUL);
   change (hi * 18446744073709551616 + x0) with C in MUL; fold (rk k) in MUL;
@@ -743,7 +739,7 @@ Ltac mul_stage x0 hi C k HC Hk H0 :=
 
 (* the same with the coefficient words (c0, c1) and its value C' as parameters (round to nearest: C' = C + 5 * 10^(k-1)) *)
 Ltac mul_stage_gen c0 c1 C' k EC HC0 HC1 HCb Hk34 :=
-  destruct (rint_row k Hk34) as (RK0 & RK1 & RS & RB & RZ & RM & RH & RE1 & RE2); cbv zeta in RS, RB, RZ, RM;
+  destruct (rint_row k Hk34) as (RK0 & RK1 & RS & RB & RZ & RM & RE1 & RE2); cbv zeta in RS, RB, RZ, RM;
   pose proof (R_mul_128x128_to_256 c0 c1 _ _ HC0 HC1 RK0 RK1) as MUL;
   destruct (i___mul_128x128_to_256 _ _ _ _) as [[[p0 p1] p2] p3]; destruct MUL as (P0 & P1 & P2 & P3 & MUL);
   rewrite EC in MUL; fold (rk k) in MUL;
